@@ -5,6 +5,7 @@ package checks
 import (
 	"bufio"
 	"context"
+	"crypto/tls"
 	"encoding/json"
 	"fmt"
 	"net"
@@ -34,6 +35,7 @@ type c19Spec struct {
 	Scanner bool // include the retention scanner (Start / Join)
 	NoSrv   bool // no protocol servers at all (hub + scanner only)
 	Prelude bool // sessions are opened (and brought to their protocol state) in the init phase
+	TLS     bool // POP3 offers STLS; the client upgrades the session before logging in
 	Bound   [2]int
 }
 
@@ -46,6 +48,7 @@ func c19Specs() []c19Spec {
 		{ID: "G8-pop3-two-sessions-idle-and-marked", Proto: "pop3", Clients: 2, Short: true, Prelude: true, Bound: [2]int{1, 2}},
 		{ID: "G7-smtp-two-sessions-idle-and-transfer", Proto: "smtp", Clients: 2, Short: true, Prelude: true, Bound: [2]int{1, 2}},
 		{ID: "G2-pop3-session-cancel-drain", Proto: "pop3", Clients: 1, Bound: [2]int{1, 2}},
+		{ID: "G11-pop3-stls-session-cancel-drain", Proto: "pop3", Clients: 1, TLS: true, Bound: [2]int{1, 2}},
 		{ID: "G5-both-two-sessions", Proto: "both", Clients: 2, Short: true, Bound: [2]int{0, 1}},
 		{ID: "G1-smtp-session-cancel-drain", Proto: "smtp", Clients: 1, Bound: [2]int{1, 2}},
 	}
@@ -58,7 +61,9 @@ type c19Client struct {
 	replies   []string
 	refused   bool
 	broke     string
-	idle      bool // an SMTP session that only says HELO and QUIT
+	idle      bool     // an SMTP session that only says HELO and QUIT
+	tlsConn   net.Conn // set once the session has been upgraded with STLS
+	tlsR      *bufio.Reader
 }
 
 func c19Scenario(c *fw.Ctx, sp c19Spec) schedScenario {
@@ -80,7 +85,7 @@ func c19Scenario(c *fw.Ctx, sp c19Spec) schedScenario {
 			e = vsched.Run(cfg, func() (func(), []vsched.Thread, func()) {
 				smtpc := sys.DefaultSMTP()
 				smtpc.Addr = "127.0.0.1:2500"
-				s = sys.New(sys.Spec{Store: sys.StoreSpec{Backend: "mem"}, SMTP: smtpc})
+				s = sys.New(sys.Spec{Store: sys.StoreSpec{Backend: "mem"}, SMTP: smtpc, POP3TLS: sp.TLS})
 				listeners["smtp"] = vnet.NewMemListener()
 				listeners["pop3"] = vnet.NewMemListener()
 				vnet.Fake = func(addr string) net.Listener {
@@ -145,7 +150,14 @@ func c19Scenario(c *fw.Ctx, sp c19Spec) schedScenario {
 						mu.Unlock()
 					}})
 				}
+				// TLS scenario: shutdown is requested no earlier than the moment the client is about
+				// to send STLS (earlier moments are what G2 explores)
+				stlsGate := make(chan struct{})
+				var stlsOnce sync.Once
 				ths = append(ths, vsched.Thread{Name: "canceller", F: func() {
+					if sp.TLS {
+						<-stlsGate
+					}
 					vsched.Point("canceller: about to request shutdown")
 					mu.Lock()
 					cancelStep = vsched.StepNo()
@@ -163,6 +175,9 @@ func c19Scenario(c *fw.Ctx, sp c19Spec) schedScenario {
 					if cl.idle {
 						return []string{"USER u", "QUIT"}
 					}
+					if sp.TLS {
+						return []string{"STLS", "USER u", "PASS p", "DELE 1", "QUIT"}
+					}
 					return []string{"USER u", "PASS p", "DELE 1", "QUIT"}
 				}
 				// talk runs the given lines on an open connection (a scheduling point before each)
@@ -170,6 +185,13 @@ func c19Scenario(c *fw.Ctx, sp c19Spec) schedScenario {
 					for _, line := range lines {
 						if points {
 							vsched.Point("client: about to send " + strings.Fields(line)[0])
+						}
+						if cl.tlsConn != nil {
+							conn, r = cl.tlsConn, cl.tlsR
+						}
+						if line == "STLS" {
+							stlsOnce.Do(func() { close(stlsGate) })
+							vsched.Point("client: about to send STLS (shutdown may be requested from here on)")
 						}
 						if _, err := fmt.Fprintf(conn, "%s\r\n", line); err != nil {
 							cl.broke = "write failed before " + strings.Fields(line)[0]
@@ -181,6 +203,16 @@ func c19Scenario(c *fw.Ctx, sp c19Spec) schedScenario {
 							return false
 						}
 						cl.replies = append(cl.replies, strings.TrimSpace(l))
+						if line == "STLS" && strings.HasPrefix(l, "+OK") {
+							// TLS 1.2: no post-handshake messages, which would collide with the next
+							// command on an unbuffered in-memory connection
+							tc := tls.Client(conn, &tls.Config{InsecureSkipVerify: true, MaxVersion: tls.VersionTLS12})
+							if err := tc.Handshake(); err != nil {
+								cl.broke = "the server offered STLS and answered +OK, but the TLS handshake failed: " + err.Error()
+								return false
+							}
+							cl.tlsConn, cl.tlsR = tc, bufio.NewReader(tc)
+						}
 					}
 					return true
 				}
@@ -317,7 +349,11 @@ func c19Scenario(c *fw.Ctx, sp c19Spec) schedScenario {
 							}
 						} else {
 							ms, _ := st.GetMessages("u")
-							if len(cl.replies) != 5 || !strings.HasPrefix(cl.replies[4], "+OK") || len(ms) != 0 {
+							nrep := 5
+							if sp.TLS {
+								nrep = 6
+							}
+							if len(cl.replies) != nrep || !strings.HasPrefix(cl.replies[nrep-1], "+OK") || len(ms) != 0 {
 								probs = append(probs, [2]string{"pop3-deletes-not-applied", fmt.Sprintf("client %d marked message 1 and sent QUIT during shutdown: replies %v, mailbox u still holds %d messages", i, cl.replies, len(ms))})
 							}
 						}
